@@ -11,6 +11,7 @@ import (
 	"fmt"
 	"math"
 	"math/big"
+	"runtime"
 	"sort"
 	"strings"
 
@@ -44,15 +45,21 @@ type Res struct {
 }
 
 type Case struct {
-	Mode      string `json:"mode"` // decode | process | nonce | sha
+	Mode      string `json:"mode"` // decode | process | nonce | sha | seq | events
 	Class     string `json:"class,omitempty"`
 	Outs      []Out  `json:"outs,omitempty"`
 	Resources []Res  `json:"resources,omitempty"` // decode uses the first
 	FeeAddr   string `json:"fee_addr,omitempty"`
 	Height    string `json:"height,omitempty"` // decimal, non-negative
 	TxHash    string `json:"tx_hash,omitempty"`
-	Msg       string `json:"msg,omitempty"` // sha: hex of the message
+	Msg       string `json:"msg,omitempty"`   // sha: hex of the message
 	Steps     []Step `json:"steps,omitempty"` // seq: a history on ONE long-lived handler
+	// events: the same, every block through the real HandleEvents (observed: what arrives on the message
+	// channel); P1 = under GOMAXPROCS(1)
+	P1 bool `json:"p1,omitempty"`
+	// events: "late" = the reader of the message channel comes to its first receive only after the handler
+	// has returned (events.go)
+	Reader string `json:"reader,omitempty"`
 }
 
 // Tx is one transaction of a block of a history.
@@ -153,13 +160,15 @@ func txJSONOf(hash string, outs []Out, blocktime int64) string {
 
 // ---- fakes -------------------------------------------------------------------------------------
 
-type conn struct{ block *btcjson.GetBlockVerboseTxResult }
+type conn struct {
+	block *btcjson.GetBlockVerboseTxResult
+}
 
 func (c *conn) GetRawTransactionVerbose(*chainhash.Hash) (*btcjson.TxRawResult, error) {
 	return nil, errors.New("unused")
 }
 func (c *conn) GetBlockHash(int64) (*chainhash.Hash, error) { return &chainhash.Hash{}, nil }
-func (c *conn) GetBestBlockHash() (*chainhash.Hash, error) { return &chainhash.Hash{}, nil }
+func (c *conn) GetBestBlockHash() (*chainhash.Hash, error)  { return &chainhash.Hash{}, nil }
 func (c *conn) GetBlockVerboseTx(*chainhash.Hash) (*btcjson.GetBlockVerboseTxResult, error) {
 	return c.block, nil
 }
@@ -214,7 +223,12 @@ func run(c Case) (o Obs) {
 		d := sha256.Sum256(m)
 		return Obs{Digest: hex.EncodeToString(d[:])}
 	case "seq":
-		return runSeq(c)
+		return runSeq(c, false)
+	case "events":
+		if c.P1 {
+			defer runtime.GOMAXPROCS(runtime.GOMAXPROCS(1))
+		}
+		return runSeq(c, true)
 	case "nonce":
 		h1 := handler(c, 1, &conn{})
 		c2 := c
@@ -318,7 +332,7 @@ const seqBlocktime = int64(1700000000)
 
 // runSeq builds the resources map and the handler ONCE (as app.go does) and plays the steps on
 // them.  After every step the map the handler was built over is read back.
-func runSeq(c Case) (o Obs) {
+func runSeq(c Case, events bool) (o Obs) {
 	rs := map[[32]byte]btcconfig.Resource{}
 	for _, r := range c.Resources {
 		if _, dup := rs[rid(r.ID)]; dup {
@@ -328,8 +342,12 @@ func runSeq(c Case) (o Obs) {
 	}
 	feeAddr := mustAddr(c.FeeAddr)
 	cn := &conn{}
+	msgChan := make(chan []*message.Message, 1)
+	if events {
+		msgChan = make(chan []*message.Message) // unbuffered, as app.go makes it
+	}
 	h := listener.NewFungibleTransferEventHandler(zerolog.Nop().With(), 1, listener.NewBtcDepositHandler(),
-		make(chan []*message.Message, 1), cn, rs, feeAddr)
+		msgChan, cn, rs, feeAddr)
 	other := handler(Case{Resources: []Res{{Addr: pool[3], Fee: 7, ID: 9}}, FeeAddr: pool[4]}, 77, &conn{})
 	snap := func() (out []SnapRes) {
 		var keys [][32]byte
@@ -350,17 +368,22 @@ func runSeq(c Case) (o Obs) {
 		}
 		return out
 	}
-	for _, st := range c.Steps {
+	for si, st := range c.Steps {
 		var so StepObs
 		switch st.Kind {
 		case "block":
+			// the block time of a transaction identifies it (events: also the block it is in)
+			base := seqBlocktime
+			if events {
+				base += int64(si) * 1000
+			}
 			var sb strings.Builder
 			sb.WriteString(`{"hash":"00","height":1,"tx":[`)
 			for i, t := range st.Txs {
 				if i > 0 {
 					sb.WriteString(",")
 				}
-				sb.WriteString(txJSONOf(t.Hash, t.Outs, seqBlocktime+int64(i)))
+				sb.WriteString(txJSONOf(t.Hash, t.Outs, base+int64(i)))
 			}
 			sb.WriteString("]}")
 			var blk btcjson.GetBlockVerboseTxResult
@@ -369,21 +392,33 @@ func runSeq(c Case) (o Obs) {
 			}
 			cn.block = &blk
 			ht := bigHeight(st.Height)
-			out, err := h.ProcessDeposits(ht)
-			if err != nil {
-				panic("ProcessDeposits: " + err.Error())
+			var batches [][]*message.Message
+			if events {
+				batches = collectEvents(h, msgChan, ht, c.Reader == "late")
+			} else {
+				out, err := h.ProcessDeposits(ht)
+				if err != nil {
+					panic("ProcessDeposits: " + err.Error())
+				}
+				var dests []int
+				for d := range out {
+					dests = append(dests, int(d))
+				}
+				sort.Ints(dests)
+				for _, d := range dests {
+					batches = append(batches, out[uint8(d)])
+				}
 			}
 			so.Txs = make([]TxObs, len(st.Txs))
 			for i, t := range st.Txs {
 				so.Txs[i].Nonce2, _ = other.CalculateNonce(ht, t.Hash)
 			}
-			var dests []int
-			for d := range out {
-				dests = append(dests, int(d))
-			}
-			sort.Ints(dests)
-			for _, d := range dests {
-				for _, m := range out[uint8(d)] {
+			for _, batch := range batches {
+				for _, m := range batch {
+					if m == nil {
+						so.Stray = true
+						continue
+					}
 					td, ok := m.Data.(transfer.TransferMessageData)
 					if !ok || m.Source != 1 || td.Type != transfer.FungibleTransfer || len(td.Payload) != 2 || m.Type != transfer.TransferMessageType {
 						so.Stray = true
@@ -392,7 +427,7 @@ func runSeq(c Case) (o Obs) {
 					// whose message is it: the transaction's block time is handed on as the
 					// message's timestamp; failing that, the (reference) nonce of the transaction
 					idx := -1
-					if k := m.Timestamp.Unix() - seqBlocktime; k >= 0 && k < int64(len(st.Txs)) {
+					if k := m.Timestamp.Unix() - base; k >= 0 && k < int64(len(st.Txs)) {
 						idx = int(k)
 					} else {
 						for i := range st.Txs {
@@ -424,7 +459,7 @@ func runSeq(c Case) (o Obs) {
 			}
 		case "decode":
 			var tx btcjson.TxRawResult
-			if err := json.Unmarshal([]byte(txJSONOf(st.Txs[0].Hash, st.Txs[0].Outs, seqBlocktime)), &tx); err != nil {
+			if err := json.Unmarshal([]byte(txJSONOf(st.Txs[0].Hash, st.Txs[0].Outs, seqBlocktime)), &tx); err != nil { // (decode steps carry no block)
 				panic("tx json: " + err.Error())
 			}
 			want := rid(c.Resources[st.Res].ID)
@@ -891,6 +926,12 @@ func gen(r *vgen.Rng, tier string) []Case {
 	for i := 0; i < 60*mul; i++ {
 		seqs = append(seqs, genSeq(r))
 	}
+	// --- blocks through the real HandleEvents: what arrives on the message channel ---------------------
+	emul := 1
+	if thorough {
+		emul = 8
+	}
+	seqs = append(seqs, genEventsCases(r, emul)...)
 	return spread(out, seqs)
 }
 
@@ -978,12 +1019,15 @@ func coqSeq(c Case, o Obs) string {
 			steps = append(steps, "ODec "+vgen.ListOf(st.Txs[0].Outs, coqOut)+" "+vgen.Nat(st.Res)+" "+coqDec(so.Dec, so.Amount, so.Data)+" "+snap+" "+coqAddr(so.FeeAddr))
 		}
 	}
+	if c.Mode == "events" {
+		return "SeqEv " + vgen.Bool(c.P1) + " " + vgen.ListOf(c.Resources, coqRes) + " " + coqAddr(c.FeeAddr) + " " + vgen.List(steps)
+	}
 	return "Seq " + vgen.ListOf(c.Resources, coqRes) + " " + coqAddr(c.FeeAddr) + " " + vgen.List(steps)
 }
 
 func coq(c Case, o Obs) string {
 	switch c.Mode {
-	case "seq":
+	case "seq", "events":
 		return coqSeq(c, o)
 	case "sha":
 		return "Sha \"" + c.Msg + "\"%string \"" + o.Digest + "\"%string"
@@ -1023,6 +1067,16 @@ func main() {
 		Run:       run,
 		Coq:       coq,
 		Kind: func(c Case) string {
+			if c.Mode == "events" {
+				k := "events"
+				if c.P1 {
+					k += "-p1"
+				}
+				if c.Reader != "" {
+					k += "-" + c.Reader
+				}
+				return k
+			}
 			if c.Class != "" {
 				return c.Class
 			}
@@ -1034,6 +1088,20 @@ func main() {
 				// at least one output to the bridge or fee address
 				for _, x := range c.Outs {
 					if x.Addr == c.Resources[0].Addr || x.Addr == c.FeeAddr {
+						return true
+					}
+				}
+				return false
+			case "events":
+				// a block whose deposits go to at least two destination domains
+				for _, so := range o.Steps {
+					dests := map[uint8]bool{}
+					for _, x := range so.Txs {
+						if x.Msg {
+							dests[x.Dest] = true
+						}
+					}
+					if len(dests) >= 2 {
 						return true
 					}
 				}
@@ -1063,7 +1131,7 @@ func main() {
 			}
 			return true
 		},
-		Rule: "amount: one Taproot bridge output whose JSON literal is s/1e8 for every satoshi value below 2000 on which float truncation is off, powers of ten x {1,2,3,5,7,9} and +-1, 2^k and +-1, the supply bound, random 8-decimal amounts up to 21e14 (fixed and trimmed literals); tx: random output multisets (several bridge outputs, non-Taproot bridge outputs, fee outputs of any type, 0..n OP_RETURNs) with the fee threshold at fee sum -1/0/+1; malformed: undecodable or short OP_RETURN scripts; process: real ProcessDeposits+BtcDepositHandler with one or two resources and well/ill-formed payloads; nonce: two handler instances; seq: histories of 3..6 steps (blocks of 1..4 transactions through ProcessDeposits, single DecodeDepositEvent calls on the shared map's values) on ONE handler over 1..3 resources - underpaying / paying-the-rest / exact / overpaying / fee-less / fee-only / unrelated / non-Taproot / malformed / two-resource / repeated transactions, configuration read back after every step; sha: lengths around the 55/64/119/128-byte padding boundaries. distinct = distinct input JSON; non-trivial = the transaction has an output to a configured bridge or fee address (all nonce/sha cases count)",
+		Rule:      "amount: one Taproot bridge output whose JSON literal is s/1e8 for every satoshi value below 2000 on which float truncation is off, powers of ten x {1,2,3,5,7,9} and +-1, 2^k and +-1, the supply bound, random 8-decimal amounts up to 21e14 (fixed and trimmed literals); tx: random output multisets (several bridge outputs, non-Taproot bridge outputs, fee outputs of any type, 0..n OP_RETURNs) with the fee threshold at fee sum -1/0/+1; malformed: undecodable or short OP_RETURN scripts; process: real ProcessDeposits+BtcDepositHandler with one or two resources and well/ill-formed payloads; nonce: two handler instances; seq: histories of 3..6 steps (blocks of 1..4 transactions through ProcessDeposits, single DecodeDepositEvent calls on the shared map's values) on ONE handler over 1..3 resources - underpaying / paying-the-rest / exact / overpaying / fee-less / fee-only / unrelated / non-Taproot / malformed / two-resource / repeated transactions, configuration read back after every step; events: histories of 1..3 blocks on ONE handler through the real HandleEvents with this runner reading the handler's unbuffered message channel until no goroutine started during the call is left - blocks with recognised deposits for 2, 3 and 4 destination domains (1-2 per domain, over 1..3 resources, exact or higher fee) among underpaying / fee-less / malformed / unrelated transactions, single-destination and deposit-free blocks, each under GOMAXPROCS(1) and under the default schedule, a third of them with a reader that comes to its first receive only after the handler has returned - every message that arrives attributed to its transaction and judged like in seq; sha: lengths around the 55/64/119/128-byte padding boundaries. distinct = distinct input JSON; non-trivial = the transaction has an output to a configured bridge or fee address (all nonce/sha cases count; events: messages for at least two destination domains arrived from one block)",
 		ShardSize: 250,
 	})
 }
